@@ -22,7 +22,7 @@ def opC03Judge (j : Json) : Json :=
 def attemptObsOf (j : Json) : Spec.C07.AttemptObs :=
   { startMs := nat j "start_ms", endMs := nat j "end_ms", postOpCount := nat j "post_op_count",
     reportedSuccess := bool j "reported_success", installed := bool j "installed",
-    nextStartMs := optNat j "next_start_ms" }
+    nextStartMs := optNat j "next_start_ms", hookFailed := bool j "hook_failed" }
 
 def opC07Judge (j : Json) : Json :=
   let log := (arr j "attempts").toList.map attemptObsOf
